@@ -75,7 +75,10 @@ ObsBucketOK(x, s) ==
 ObsOK(obs, s) == \A i \in 1..Len(obs.buckets) : ObsBucketOK(obs.buckets[i], s)
 
 StateOK(e, out) == IF "same" \in DOMAIN e.obs THEN out.st.buckets = st.buckets ELSE ObsOK(e.obs, out.st)
-Explains(e, out) == RespOK(e, out.resp) /\ StateOK(e, out)
+\* the state a step leads to takes the generations the implementation reported (e.gen): it must respect the versioning
+\* laws (a live object's generation is positive and the greatest its name ever had) -- an outcome that does not is no
+\* explanation, so a reported generation that breaks them is a rejected step, not a failure of the validation run
+Explains(e, out) == RespOK(e, out.resp) /\ StateOK(e, out) /\ GenInv(out.st)
 
 Init == st = InitSt /\ l = 1 /\ dead = FALSE
 
